@@ -184,10 +184,20 @@ func VerifC12() {
 			}
 		}
 	case 2:
+		anyOK := false
+		for i := 0; i < n; i++ {
+			if !rs[i].isTry && !rs[i].failed {
+				anyOK = true
+			}
+		}
 		for i := 0; i < n; i++ {
 			if rs[i].isTry && rs[i].passed {
 				// a request may pass only after the breaker left half-open (closed by the probe, or re-opened and due again)
 				rt.Assert(lis.n > 0, "a request admitted in this scenario follows a reported transition out of half-open")
+				if !anyOK {
+					// nothing can have closed the breaker: the request passed as the probe of a new half-open passage
+					rt.Assert(lis.in[HalfOpen] > 0, "with no successful completion a request passes only as the probe of a new passage to half-open, which is reported")
+				}
 			}
 		}
 	}
